@@ -17,7 +17,8 @@ RULE = ("every base RLC circuit of the pool x every mix of 1..3 sources from the
         "alphabet produces disjoint frequencies, bit-identical coincidences (w0=1/2 with 3/2) and coincidences within the "
         "resolution that are not bit-identical (3*0.1 with 0.3) - x every w_max of {0, below w0, between harmonics, exactly "
         "on a dyadic harmonic, ten harmonics} x one-/two-sided spectra x a grid of 25 instants over two fundamental periods; "
-        "states = distinct (circuit, w_max), transitions = library solutions judged; non-trivial = at least two spectral lines")
+        "states = distinct (circuit, w_max), transitions = library solutions judged; non-trivial = at least two spectral lines"
+        ' Additions: high-frequency family (lines 0.002 .. 0.05 rad/s apart at 1e4 rad/s), near-coincident frequencies across rounding cells, small-signal family (1e-9 amplitudes), spectral power lines, instants before t = 0 and scalar instants.')
 ASSUMPTIONS = ["numpy.linalg accuracy", "reference closed-form harmonics (validated by C08)", "frequency resolution is the library default 1e-3",
                "harmonics whose inclusion depends on binary rounding of w_max/w0 (0.3 vs 3*0.1) are kept out of the w_max palette"]
 EXPLANATION = "direct exploration of frequency_components, TimeDomainSolution and FrequencyDomainSolution against the exact phasor reference of C02"
